@@ -142,6 +142,7 @@ def finish(ctx, level="other", explanation="", extra_cov=None, assumptions=None,
     for o in ctx.obligations:
         per_rule.setdefault(o["rule"], []).append(o)
     for r, os_ in sorted(per_rule.items()):
+        os_ = [o for o in os_ if o.get("kind") not in ("ANCHOR", "FLOOR")] + [o for o in os_ if o.get("kind") in ("ANCHOR", "FLOOR")]
         for o in os_[:3]:
             samples.append({k: o[k] for k in ("rule", "key", "ok", "what", "site") if k in o})
     cov = {
